@@ -241,6 +241,20 @@ func checkDrawTermAgreement(p *core.Program, r *core.Report) {
 		b := core.Strip(g.wordDraw.Call.Args[0])
 		c, ok := b.(*ssa.Call)
 		okB := ok && core.StaticCallee(c) == p.Method("WLRecipe", "Size")
+		if ok && !okB {
+			// the list's own Size() applied to the recipe's list: what the recipe's Size() forwards to (it only adds the nil test)
+			if sz := p.Method("WLRecipe", "Size"); sz != nil && len(c.Call.Args) == 1 {
+				for _, ret := range core.Returns(sz) {
+					if ic, isC := core.Strip(ret.Results[0]).(*ssa.Call); isC && core.StaticCallee(ic) == core.StaticCallee(c) && len(ic.Call.Args) == 1 {
+						rootW, pw, ok1 := valueAccessPath(ic.Call.Args[0])
+						rootG, pg, ok2 := valueAccessPath(c.Call.Args[0])
+						if ok1 && ok2 && rootIsParam0(rootW, sz) && rootG == ssa.Value(g.recv) && strings.Join(pw, ".") == strings.Join(pg, ".") {
+							okB = true
+						}
+					}
+				}
+			}
+		}
 		if g.wordViaPick {
 			// uniform pick over list.words: its bound is len(words), which Size() reports (saturating)
 			if sz := p.Method("WLRecipe", "Size"); sz != nil {
